@@ -84,6 +84,10 @@ impl Lift {
         if x == 0.0 {
             return Some(0);
         }
+        if *self == Lift::Id {
+            // TLC integers are 32-bit
+            return if x.fract() == 0.0 && x.abs() < 2.0e9 { Some(x as i64) } else { None };
+        }
         (-1000..=1000).find(|n| self.apply(*n).to_bits() == x.to_bits())
     }
 }
